@@ -264,13 +264,14 @@ class AbstractSegmenter(object):
         """
         phoneseq = tuple(utterance.replace(self.wordsep, ' ').split())
 
-        out = [phoneseq[0]]
+        # the words as lists of units, a new word starts at each boundary
+        words = [[phoneseq[0]]]
         for iPos in range(len(phoneseq) - 1):
             if self.diphones.get(phoneseq[iPos:iPos+2], 1.0) > self.thresh:
-                out.append(self.wordsep)
-            out.append(phoneseq[iPos+1])
+                words.append([])
+            words[-1].append(phoneseq[iPos+1])
 
-        return ' '.join(out).replace(' ', '').replace(self.wordsep, ' ')
+        return ' '.join(''.join(word) for word in words)
 
 
 class GoldSegmenter(AbstractSegmenter):
